@@ -114,6 +114,7 @@ impl Check for SimCheck {
         }
         if self.id == "C09" {
             v.push(Part { name: "showincludes", kind: PartKind::Enum { units: 9 } });
+            v.push(Part { name: "bb-deps", kind: PartKind::Random { cases: tier.pick(64, 1000), main: 20, ops: 0, oplen: 0, sched: 0 } });
         }
         if self.id == "C08" {
             v.push(Part { name: "shapes", kind: PartKind::Enum { units: tier.pick(600, 6000) } });
@@ -124,6 +125,9 @@ impl Check for SimCheck {
         v
     }
     fn run_random(&mut self, _part: &str, case: &Case, env: &mut Env) -> CaseOut {
+        if _part == "bb-deps" {
+            return crate::bb::deps::run_deps_case(case, env, self.id);
+        }
         if _part == "schedules" {
             // small graphs, every completion order x failing subsets of the last round
             let prof = Profile { gen: GenOpts { max_steps: 6, max_sources: 2, regen_pct: 0, ..self.prof.gen.clone() }, kill_pct: 0, interrupt_pct: 0, restat_pct: 0, repeat_pct: 0, min_rounds: 1, ..self.prof.clone() };
